@@ -541,3 +541,22 @@ Proof.
            destruct (str_eqb_s lhs "arch") eqn:E; auto. apply str_eqb_s_eq in E. subst lhs. rewrite arch_code in Ef. injection Ef as <-. discriminate.
 Qed.
 Print Assumptions reprint_filter.
+
+(* ---------- what flags.Parse returns satisfies the operator condition of filter_ok ---------- *)
+(* the -F scanner takes the longest operator: a bare < > & it returns is followed by '=' only when that '=' is the whole value *)
+Lemma pick_op_rhs_ok l o rhs : pick_op ops l = Some (o, rhs) -> op_rhs_ok o rhs = true \/ rhs = ["="%char].
+Proof.
+  intros H. destruct (pick_op_spec _ _ _ _ H) as (Hin & Hl & Hne). subst l.
+  destruct rhs as [|c r]; [contradiction|].
+  unfold ops in Hin. cbn [map In] in Hin.
+  destruct Hin as [<-|[<-|[<-|[<-|[<-|[<-|[<-|[<-|[]]]]]]]]]; try (left; reflexivity);
+    (destruct (Ascii.eqb c "="%char) eqn:E;
+     [ apply Ascii.eqb_eq in E; subst c; destruct r as [|c2 r2]; [right; reflexivity | cbn in H; discriminate H]
+     | left; unfold op_rhs_ok; cbn; rewrite E; reflexivity ]).
+Qed.
+Theorem scan_filter_rhs_ok v lhs o rhs : scan_filter v = Some (lhs, o, rhs) -> op_rhs_ok o rhs = true \/ rhs = ["="%char].
+Proof.
+  unfold scan_filter. destruct (span is_word v) as [w r1]. destruct w; [discriminate|]. destruct (span is_blank r1) as [ws r2].
+  destruct (pick_op ops r2) as [[o' rhs']|] eqn:E; [|discriminate]. intros H; injection H as _ <- <-. eapply pick_op_rhs_ok; eauto.
+Qed.
+Print Assumptions scan_filter_rhs_ok.
